@@ -25,3 +25,84 @@ pub fn any_grammar() -> BoxedStrategy<GrammarSpec> {
     ]
     .boxed()
 }
+
+/// Lark grammars built around "generation-style" lexemes: `stop=` (hidden stop text), `suffix=`
+/// (visible), `[lazy]`, `max_tokens=`, each followed by forced or free text.  No reference
+/// recogniser models these; they are for the relational checks (state vs. fresh replay, mask vs.
+/// commit vs. validate, forced bytes, clones).
+pub fn gen_like_grammar(core: bool) -> BoxedStrategy<GrammarSpec> {
+    let body_rx = prop_oneof![Just("[a-z]*"), Just("[a-z]+"), Just(".*"), Just("[a-z ]*"), Just("(a|ab)*"), Just("[a-c]{0,6}"), Just("[^;]*")];
+    // `core`: only what the core fragment of C01/C12/C13 allows (no stop=, no max_tokens=): visible suffixes and lazy lexemes
+    let attr = if core {
+        prop_oneof![
+            3 => Just("suffix=\"X\""),
+            2 => Just("suffix=\";\""),
+            2 => Just("suffix=\"ab\""),
+            2 => Just("suffix=/[.;]/"),
+            1 => Just("suffix=\"\\n\\n\""),
+        ]
+        .boxed()
+    } else {
+        gen_attr_full()
+    };
+    let follow = prop_oneof![
+        3 => Just("\"!!\""),
+        2 => Just("\"</x>\""),
+        1 => Just("\"X\""),
+        1 => Just("\";\""),
+        1 => Just("\"\""),
+        2 => Just("/[0-9]+/"),
+        1 => Just("\"ab\" /[0-9]/"),
+        1 => Just("(\"!!\" | \"!?\")"),
+    ];
+    let shape = 0u8..8;
+    (body_rx.clone(), attr.clone(), follow.clone(), shape, body_rx, attr, follow).prop_map(|(rx, at, fo, shape, rx2, at2, fo2)| {
+        let b1 = format!("body[{}]: /{}/\n", at, rx);
+        let b2 = format!("other[{}]: /{}/\n", at2, rx2);
+        let txt = match shape {
+            0 | 1 => format!("start: body {}\n{}", fo, b1),
+            2 => format!("start: (body {})+\n{}", fo, b1),
+            3 => format!("start: \"<\" body {} \">\"\n{}", fo, b1),
+            4 => format!("start: body {} other {}\n{}{}", fo, fo2, b1, b2),
+            5 => format!("start: body other {}\n{}{}", fo2, b1, b2),
+            6 => format!("start: body {} | other {}\n{}{}", fo, fo2, b1, b2),
+            _ => format!("start: (item)* \"end\"\nitem: body {} | /[0-9]/\n{}", fo, b1),
+        };
+        GrammarSpec::Lark(txt)
+    })
+    .boxed()
+}
+
+fn gen_attr_full() -> BoxedStrategy<&'static str> {
+    prop_oneof![
+        3 => Just("stop=\"X\""),
+        2 => Just("stop=\";\""),
+        2 => Just("stop=\"ab\""),
+        2 => Just("stop=/[.;]/"),
+        1 => Just("stop=\"\\n\\n\""),
+        2 => Just("suffix=\"X\""),
+        1 => Just("suffix=/[.;]/"),
+        1 => Just("stop=\"\", max_tokens=3"),
+        1 => Just("stop=\"X\", max_tokens=4"),
+        1 => Just("max_tokens=3"),
+    ]
+    .boxed()
+}
+
+/// does the engine support rollback/reset for this grammar (documented: not with stop= / max_tokens= lexemes)
+pub fn supports_rollback(g: &GrammarSpec) -> bool {
+    match g {
+        GrammarSpec::Lark(s) => !(s.contains("stop=") || s.contains("max_tokens=")),
+        _ => true,
+    }
+}
+
+/// `any_grammar` plus the generation-style grammars with stop= / max_tokens= (C11, C14, C17, C20)
+pub fn any_grammar_ext() -> BoxedStrategy<GrammarSpec> {
+    prop_oneof![6 => any_grammar(), 1 => gen_like_grammar(false)].boxed()
+}
+
+/// `any_grammar` plus generation-style grammars that stay inside the core fragment (suffix= only)
+pub fn any_grammar_core_ext() -> BoxedStrategy<GrammarSpec> {
+    prop_oneof![8 => any_grammar(), 1 => gen_like_grammar(true)].boxed()
+}
